@@ -34,7 +34,7 @@ HOOKS = ['op.return', 'coherent.eval', 'audit_meta.eval']
 MIN_DISTINCT = {'quick': 800, 'thorough': 10000}
 N = {'quick': 1200, 'thorough': 30000}
 ALLOWED = ['copy', 'slice', 'subset', 'renamevar', 'apply', 'eval', 'mask',
-           'stack', 'interpsigma']
+           'stack', 'interpsigma', 'save_ioapi']
 FACETS_REQUIRED = {t: ['op:' + k for k in ALLOWED] + ['via:from_arrays',
                                                      'via:griddesc',
                                                      'via:disk', 'kind:bdy']
